@@ -334,28 +334,38 @@ PROPS = {
                       "quiescent point the listing, the index and every resolved entity are those of a rebuild (Staged.served_eq_rebuild, "
                       "Staged.session_coherent); an edit is listed as soon as it is made (Staged.stage_visible), a commit stores the staged "
                       "operations in order (Staged.commit_stores), edits after a merge build on the merged history (Staged.edit_after_merge); "
+                      "eviction under memory pressure is modelled by the loop of evictIfNeeded itself (GitBugModel.Lru): it never drops an "
+                      "instance that holds staged operations, in any session and for any cache size set at any point "
+                      "(LruEvict.evictLoop_keeps_dirty, LruEvict.staged_never_evicted, LruEvict.dirty_until_commit), which is the guard the "
+                      "evict action of the coherence theorems relies on, and it brings the loaded set down to the size unless everything "
+                      "left is staged (LruEvict.evict_bound); "
                       "the Close of the pinned tree is shown incoherent by a kernel-checked witness (Staged.pinned_close_incoherent: found by "
                       "the harness, repaired in /repo). The correspondence run: after every action of two-user sessions the live RepoCache is "
                       "compared field by field with a cache rebuilt from a copy of the git data, and the finer model replays each user's "
                       "actions (ids listed and indexed, and per bug the comments its excerpt shows and the operations it resolves to).",
         "level_note": "Trusted: Lean kernel, harness. Entities, excerpts and index documents are abstract (functions of the entity); bleve is "
                       "exercised, not modelled. Query results are compared as sets (ties on the sort key across replicas are ordered by map "
-                      "iteration; ordering is C12's subject). Eviction under a small cache size needs a private setter and is covered by the "
-                      "model only. Fixed in /repo: merge results not indexed; data race in the cache build; (from C02/C09) stale entity after a "
+                      "iteration; ordering is C12's subject). Eviction under a small cache size (SetCacheSize) is driven in sessions of "
+                      "their own, against GitBugModel.Lru. Fixed in /repo: merge results not indexed; data race in the cache build; (from C02/C09) stale entity after a "
                       "diverged merge, identity updates never reported.",
         "required_theorems": ["coh_rebuild", "coh_step", "coh_run", "served_eq_rebuild", "session_coherent", "pull_visible", "loaded_after_merge",
                               "remove_spec", "merged_without_index_incoherent", "Staged.coh_rebuild", "Staged.coh_install", "Staged.coh_step",
                               "Staged.coh_run", "Staged.dirty_false_iff", "Staged.reopen_quiescent", "Staged.served_eq_rebuild",
                               "Staged.session_coherent", "Staged.stage_visible", "Staged.commit_stores", "Staged.edit_after_merge",
-                              "Staged.pinned_close_incoherent"],
+                              "Staged.pinned_close_incoherent", "LruEvict.evictLoop_keeps_dirty", "LruEvict.evictLoop_dropped_clean",
+                              "LruEvict.evict_bound", "LruEvict.inv_step", "LruEvict.staged_never_evicted", "LruEvict.dirty_until_commit",
+                              "LruEvict.pinned_new_fails_under_pressure"],
         "slices": ["C11"],
         "rule": "sessions of 8..22 (quick) / ..45 (thorough) actions by two users on two go-git repositories sharing a remote, over {new bug, "
                 "comment, label, status, title, edits left staged, commit of everything staged, push, pull, remove, close+reopen (also with "
                 "operations still staged)}, each - when nothing is staged - followed by a comparison of everything the live "
                 "cache serves (excerpts, resolved snapshots, identities, valid labels, 10 queries, one full-text probe per bug ever "
                 "titled) with a cache rebuilt from a copy of the git data; the abstract action list of each user is replayed by the model "
-                "(ids in the excerpt map and in the index after every action); non-trivial/distinct = distinct sessions",
-        "trusted_base": [KERNEL, TIE, "model: GitBugModel.Cache (step, rebuild, served) and GitBugModel.CacheStaged (staging, excerpt file, Close/Load/Build) for cache/subcache.go, cache/cached.go"],
+                "(ids in the excerpt map and in the index after every action); sessions of 10..40 (..80) calls on one cache whose "
+                "size is set to 0..5 at random points, over {New, Resolve, edit left staged, Commit, Remove}: for every Resolve whether "
+                "the caller gets the instance it holds (GitBugModel.Lru says which instances were dropped), no acknowledged edit lost, "
+                "live cache = rebuilt cache at the end; non-trivial/distinct = distinct sessions",
+        "trusted_base": [KERNEL, TIE, "model: GitBugModel.Cache (step, rebuild, served), GitBugModel.CacheStaged (staging, excerpt file, Close/Load/Build) and GitBugModel.Lru (LRU list, evictIfNeeded) for cache/subcache.go, cache/cached.go, cache/lru_id_cache.go"],
         "assumptions": ["comparison points are quiescent (nothing staged): after an edit that is left staged the comparison waits for the commit or the reopen"],
         "gen_facts": [],
         "timeout": {"quick": 900, "thorough": 7200},
